@@ -27,8 +27,7 @@ ASTs        B and|or <n> … | 1 not|usub|uadd|invert <a> | 2 bitand|bitor|x:<Ty
                                      of the two) | `differ …` | `err <Class>` | `none`
   exec <names> <k> (E <ast> | S <Type>){k}
                                  ->  `err <Class>` | per leaf of the parsed query `ok <leaf>`/`err <Class>`, joined by ` ; `
-                                     ## the same with names substituted at any depth also in range bounds,
-                                        or `reject` when the parsed object is not a query tree over values
+                                     ## `reject` when the parsed object is not a query tree over values
   resolve <names> <k> (…){k}     ->  `ok <obj>`: the parsed query with every leaf resolved | `err <Class>`
   names = nonames | <k> (<hex> <obj>){k}
 -/
@@ -464,14 +463,6 @@ def showRes : Except Err W → String
 structure St where
   cat : List String := []
 
-/-- a range leaf with the names in its bounds substituted at any depth (what the property asks) -/
-def resolveLeafDeep (names : Names) : W → Except Err W
-  | .range n i s e sx ex => do
-    let s' ← getValue names s
-    let e' ← getValue names e
-    pure (.range n i s' e' sx ex)
-  | w => resolveLeaf names w
-
 mutual
 def resolveAll (names : Names) : W → Except Err W
   | .and qs => do
@@ -560,8 +551,7 @@ def step (st : St) (toks : List String) : St × String :=
             let m := " ; ".intercalate ((leaves w).map (fun l => showRes (resolveLeaf names l)))
             match unembed w with
             | none => (st, m ++ " ## reject")          -- not a query tree over values (D11)
-            | some _ =>
-              (st, m ++ " ## " ++ " ; ".intercalate ((leaves w).map (fun l => showRes (resolveLeafDeep names l))))
+            | some _ => (st, m)
           else (st, "notquery ## reject")
       | _ => (st, "bad-op")
     | none => (st, "bad-op")
